@@ -8,9 +8,9 @@ cook.go:100-131, and the request assembly emitted by restclient.tmpl:14-92 as a 
 `json.Marshal(param)`).
 
 Quirks of the code are kept (marked Q):
- Q1 `{{if $.CtxParamMap}}` tests the whole map: once ANY method has a context parameter, every
-    method without one gets `http.NewRequestWithContext(, …)` and the file fails to format;
- Q2 a body verb without a struct parameter emits `json.Marshal()` (does not compile);
+ (Q1, Q2 were repaired in /repo — 230b9e4: the request constructor is chosen per method,
+    `{{if index $.CtxParamMap .}}`; de8bb02: a body verb without a struct parameter sends no body,
+    `{{if and $p (in $httpmethod $.BodyHTTPMethods)}}` — and the model follows the fixed code.)
  Q3 a pointer-to-struct parameter of a query verb is dereferenced unguarded (`req.Name`);
  Q4 `strings.Replace(path_, "{k}", v, 1)` runs once per placeholder on the already substituted
     text, so a value containing `{later}` is rewritten by a later replacement;
@@ -466,7 +466,6 @@ structure QueryOp where
 inductive CtxMode where
   | background                 -- http.NewRequest
   | param (p : String)         -- http.NewRequestWithContext(p, …)
-  | missing                    -- http.NewRequestWithContext(, …): does not parse (Q1)
   deriving Repr, DecidableEq
 
 /-- everything the template needs for one method -/
@@ -533,7 +532,6 @@ def queryOpsOf (c : Cooked) : List QueryOp :=
 
 inductive GenRes where
   | fatal                              -- a Fatalf: exit 1, nothing written
-  | formatError                        -- "format source" error: exit 1, nothing written (Q1)
   | ok (plans : List Plan) (compiles : Bool)
   deriving Repr, DecidableEq
 
@@ -543,12 +541,12 @@ def collect : List MethodRes → Option (List (Cooked × PathDir × List PathSub
   | .skipped :: rest => collect rest
   | .ok c d s :: rest => (collect rest).map ((c, d, s) :: ·)
 
-/-- the template's view of one cooked method; `anyCtx` is `{{if $.CtxParamMap}}` -/
-def planOf (hs : List (String × String)) (anyCtx : Bool) (name : String)
+/-- the template's view of one cooked method (`{{if index $.CtxParamMap .}}`: per method) -/
+def planOf (hs : List (String × String)) (name : String)
     (c : Cooked) (d : PathDir) (subs : List PathSub) : Plan :=
   let ctx := match c.ctx with
     | some p => CtxMode.param p
-    | none => if anyCtx then CtxMode.missing else CtxMode.background
+    | none => CtxMode.background
   let dictPtr := match c.dict with
     | some p => (getKV c.isPtr (.param p)).getD false
     | none => false
@@ -561,15 +559,11 @@ def generate (i : Iface) : GenRes :=
   match collect (i.methods.map cookMethod) with
   | none => .fatal
   | some cooked =>
-    let anyCtx := cooked.any (fun x => x.1.ctx.isSome)
     let names := (i.methods.filter (fun m => match cookMethod m with | .ok .. => true | _ => false)).map (·.name)
-    let plans := (cooked.zip names).map (fun (x, name) => planOf hs anyCtx name x.1 x.2.1 x.2.2)
-    if plans.any (fun p => p.ctx == .missing) then .formatError
-    else
-      -- Q2: `json.Marshal()`; Q5: range over a pointer to a map; a skipped method leaves the
-      -- interface unimplemented
-      let bad := plans.any (fun p => (p.verb.hasBody && p.body.isNone) || (p.dict.isSome && p.dictIsPtr))
-      .ok plans (!bad && plans.length == i.methods.length)
+    let plans := (cooked.zip names).map (fun (x, name) => planOf hs name x.1 x.2.1 x.2.2)
+    -- Q5: range over a pointer to a map; a skipped method leaves the interface unimplemented
+    let bad := plans.any (fun p => p.dict.isSome && p.dictIsPtr)
+    .ok plans (!bad && plans.length == i.methods.length)
 
 /-! ## the emitted method body up to `c.client.Do(req_)` -/
 
